@@ -396,3 +396,54 @@ func TestGvcReplay(t *testing.T) {
 	return &replayTemplate{pkgRel: rel, testName: "TestGvcReplay", src: src,
 		what: "a YAML document from the witness corpus leaves the post-condition false: " + o.Clause.Text}
 }
+
+// cmdScenario runs a hand-written scenario against the current tree: "gvc scenario <func-short-name> [clause-substr]".
+// Exit 1 if the scenario reproduces the defect it was written for, 0 if it passes.
+func cmdScenario(args []string) int {
+	if len(args) < 1 {
+		fmt.Println("usage: gvc scenario list | <func> [clause substring]")
+		return 2
+	}
+	if args[0] == "list" {
+		for _, cs := range clauseScenarios {
+			fmt.Printf("%s | %s | %s\n", cs.fn, cs.clause, cs.sc.what)
+		}
+		for fn, sc := range scenarios {
+			fmt.Printf("%s | | %s\n", fn, sc.what)
+		}
+		return 0
+	}
+	sub := ""
+	if len(args) > 1 {
+		sub = args[1]
+	}
+	for _, cs := range clauseScenarios {
+		if cs.fn == args[0] && (sub == "" || strings.Contains(cs.clause, sub) || strings.Contains(sub, cs.clause)) {
+			failed, out, err := runOverlayTest(cs.sc.pkgRel, "TestGvcReplay", cs.sc.src)
+			fmt.Println(out)
+			if err != nil {
+				fmt.Println("scenario error:", err)
+				return 2
+			}
+			if failed {
+				fmt.Println("REPRODUCED:", cs.sc.what)
+				return 1
+			}
+			fmt.Println("scenario passes on this tree")
+			return 0
+		}
+	}
+	if sc, ok := scenarios[args[0]]; ok {
+		failed, out, err := runOverlayTest(sc.pkgRel, "TestGvcReplay", sc.src)
+		fmt.Println(out)
+		if err != nil {
+			return 2
+		}
+		if failed {
+			return 1
+		}
+		return 0
+	}
+	fmt.Println("no such scenario")
+	return 2
+}
